@@ -45,15 +45,17 @@ def settings_tokens(r):
 def webvtt_settings(c):
     """align (omitted when centred), position = x + left padding, line = y + top padding,
     size = width - horizontal paddings; percentages; for layouts that have an origin"""
+    rel = c.pick("relativize", [True, False])
     fit = c.pick("fit", [False, True])
-    has_ext, has_pad = c.pick("extent?", [True, False]), c.pick("padding?", [True, False])
-    al = c.pick("alignment", [None] + [(h, VA.TOP) for h in HA] + [(None, VA.BOTTOM)])
+    # (relativize=False leaves a percentage layout as it is: the arithmetic must be the same; case-reduced)
+    has_ext, has_pad = c.pick("extent?", [True, False]), c.pick("padding?", [True, False] if rel else [False])
+    al = c.pick("alignment", ([None] + [(h, VA.TOP) for h in HA] + [(None, VA.BOTTOM)]) if rel else [None, (HA.RIGHT, VA.TOP)])
     origin = mk_pct_point(c, "o")
     ext = mk_pct_stretch(c, "e") if has_ext else None
     pad = mk_pct_padding(c, "p") if has_pad else None
     align = None if al is None else c.new(Alignment, horizontal=al[0], vertical=al[1])
     L = c.new(Layout, origin=origin, extent=ext, padding=pad, alignment=align, webvtt_positioning=None)
-    w = c.new(W, relativize=True, video_width=None, video_height=None, fit_to_screen=fit, global_layout=None)
+    w = c.new(W, relativize=rel, video_width=None, video_height=None, fit_to_screen=fit, global_layout=None)
     r = c.call(W._convert_positioning, w, L, compare=False)
     if c.symbolic:
         toks = settings_tokens(r)
@@ -313,6 +315,24 @@ def bounded_webvtt(ctx, b):
             out = WebVTTWriter().write(WebVTTReader().read(doc))
             return f"00:01.000 --> 00:02.000 {s}\n" in out, {"output": out}
         b.guard(("verbatim", s), one, sample=doc)
+    # ... cue by cue: a cue without settings stays without (it falls back to the default positioning)
+    pool = ["align:left position:15% line:20% size:60%", "", "align:right line:80%", "", "", "position:5%"]
+    for order in itertools.permutations(range(len(pool)), 4):
+        if order[0] > order[1] and order[2] > order[3]:
+            continue
+        sets = [pool[k] for k in order]
+        doc = "WEBVTT\n\n" + "".join(f"00:0{k + 1}.000 --> 00:0{k + 1}.500{(' ' + st) if st else ''}\ncue {k}\n\n" for k, st in enumerate(sets))
+
+        def mixed(doc=doc, sets=sets):
+            from refs import parsers
+            caps = WebVTTReader().read(doc).get_captions("en-US")
+            read = [(c_.layout_info.webvtt_positioning if c_.layout_info else "") or "" for c_ in caps]
+            if read != sets:
+                return False, {"settings_read": read, "expected": sets}
+            out = parsers.parse_webvtt(WebVTTWriter().write(WebVTTReader().read(doc)))
+            got = [cu["settings"] for cu in out]
+            return got == sets, {"settings_written": got, "expected": sets}
+        b.guard(("verbatim-mixed", tuple(order)), mixed, sample={"settings": sets})
 
 
 def run(ctx):
